@@ -161,8 +161,9 @@ class Skin(Controller):
         except BaseException:
             raise DaeMalformedError('Corrupted joint or weight index in skin')
 
-        self.max_joint_index = numpy.max([numpy.max(joint) if len(joint) > 0 else 0 for joint in self.joint_index])
-        self.max_weight_index = numpy.max([numpy.max(weight) if len(weight) > 0 else 0 for weight in self.weight_index])
+        # -1 when no vertex has any influence: nothing is referenced, so even empty sources are fine
+        self.max_joint_index = max([numpy.max(joint) for joint in self.joint_index if len(joint) > 0], default=-1)
+        self.max_weight_index = max([numpy.max(weight) for weight in self.weight_index if len(weight) > 0], default=-1)
         checkSource(self.weight_joints, ('JOINT',), self.max_joint_index)
         checkSource(self.weights, ('WEIGHT',), self.max_weight_index)
 
